@@ -1,3 +1,1017 @@
-//! C02 — not built yet.
-pub const BUILT: bool = false;
-pub fn run(_rep: &mut vx::Report) {}
+//! C02 — documents written by the library read back with the same content.
+//!
+//! Space (enumerated, nothing sampled): authoring programs over the public API
+//!   page size ∈ {A4, Letter, 200×300} × /Rotate ∈ {0,90,180,270} × metadata on/off
+//!   × page body = sequence of calls from a 10-call alphabet (Helvetica text, Courier text at a
+//!   position, filled rectangle, stroked line with colour + width, Bézier, q/cm/Q, gray 2×2
+//!   image, RGB 2×1 image, text annotation, outline entry)
+//!   * `single-page`: every body of length ≤ 3 (quick) / ≤ 4 (thorough)
+//!   * `multi-page` : every 2- and 3-page document whose pages have bodies of length ≤ 1
+//!     (thorough: 2-page documents additionally with bodies of length ≤ 2)
+//!   × the 16 writer configurations (xref stream × object streams × compression × version),
+//!   all 16 inside one execution so that they can be compared with each other.
+//!   size / rotation / metadata are deviation dimensions (DEV(1) quick, DEV(2) thorough).
+//!
+//! Oracles
+//!   (i)   library reader under default options: page count, MediaBox, /Rotate, operator list
+//!         from `ContentParser` = reference operator list of the program (per-call model;
+//!         coordinates rounded to 2 decimals, colours to 3, as the writer documents), image
+//!         XObject pixels = supplied;
+//!   (ii)  configuration independence: the observation is identical under all configurations;
+//!   (iii) the reference reader (refpdf) finds the same page list, boxes, rotation, operators,
+//!         images, and the same decoded content bytes as the library reader.
+//!
+//! The program generator, builder, model and observers are shared with C03 (`prog`).
+use serde_json::json;
+use vx::{Ctx, Explore, Report};
+
+pub const BUILT: bool = true;
+
+pub(crate) mod prog {
+    use oxidize_pdf::annotations::TextAnnotation;
+    use oxidize_pdf::geometry::Point;
+    use oxidize_pdf::graphics::{Color, ColorSpace, Image};
+    use oxidize_pdf::parser::{ContentOperation, ContentParser, PdfDocument, PdfObject, PdfReader};
+    use oxidize_pdf::structure::{Destination, OutlineItem, OutlineTree, PageDestination};
+    use oxidize_pdf::text::Font;
+    use oxidize_pdf::writer::WriterConfig;
+    use oxidize_pdf::{Document, Page};
+    use std::collections::BTreeMap;
+    use std::io::Cursor;
+    use vx::Ctx;
+
+    // ------------------------------------------------------------------ configurations
+
+    #[derive(Clone, Copy, Debug, PartialEq, Eq, Hash)]
+    pub struct Cfg {
+        pub xref_stream: bool,
+        pub obj_streams: bool,
+        pub compress: bool,
+        pub v14: bool,
+    }
+    impl Cfg {
+        /// index 0 is the writer's default (classic table, no object streams, compressed, 1.7)
+        pub fn from_index(i: usize) -> Cfg {
+            Cfg { xref_stream: i & 1 != 0, obj_streams: i & 2 != 0, compress: i & 4 == 0, v14: i & 8 != 0 }
+        }
+        pub fn all() -> Vec<Cfg> {
+            (0..16).map(Cfg::from_index).collect()
+        }
+        pub fn writer(&self) -> WriterConfig {
+            WriterConfig {
+                use_xref_streams: self.xref_stream,
+                use_object_streams: self.obj_streams,
+                pdf_version: if self.v14 { "1.4" } else { "1.7" }.to_string(),
+                compress_streams: self.compress,
+                incremental_update: false,
+            }
+        }
+        pub fn version(&self) -> &'static str {
+            if self.v14 { "1.4" } else { "1.7" }
+        }
+        pub fn label(&self) -> String {
+            format!(
+                "xref={} objstm={} compress={} v={}",
+                if self.xref_stream { "stream" } else { "table" },
+                if self.obj_streams { "on" } else { "off" },
+                if self.compress { "on" } else { "off" },
+                self.version()
+            )
+        }
+    }
+
+    // ------------------------------------------------------------------ programs
+
+    pub const SIZES: [(f64, f64); 3] = [(595.0, 842.0), (612.0, 792.0), (200.0, 300.0)];
+    pub const SIZE_NAMES: [&str; 3] = ["A4", "Letter", "200x300"];
+    pub const ROTS: [i32; 4] = [0, 90, 180, 270];
+
+    #[derive(Clone, Copy, Debug, PartialEq, Eq, Hash)]
+    pub enum Call {
+        HelvText,
+        CourierAt,
+        FillRect,
+        StrokeLine,
+        Bezier,
+        SaveCmRestore,
+        GrayImage,
+        RgbImage,
+        TextAnnot,
+        OutlineEntry,
+    }
+    pub const ALPHABET: [Call; 10] = [
+        Call::HelvText,
+        Call::CourierAt,
+        Call::FillRect,
+        Call::StrokeLine,
+        Call::Bezier,
+        Call::SaveCmRestore,
+        Call::GrayImage,
+        Call::RgbImage,
+        Call::TextAnnot,
+        Call::OutlineEntry,
+    ];
+    impl Call {
+        pub fn produces_content(self) -> bool {
+            !matches!(self, Call::TextAnnot | Call::OutlineEntry)
+        }
+    }
+
+    #[derive(Clone, Debug, PartialEq, Eq, Hash)]
+    pub struct PageProg {
+        pub size: usize,
+        pub rot: usize,
+        pub body: Vec<Call>,
+    }
+    #[derive(Clone, Debug, PartialEq, Eq, Hash)]
+    pub struct Program {
+        pub pages: Vec<PageProg>,
+        pub metadata: bool,
+    }
+    impl Program {
+        pub fn json(&self) -> serde_json::Value {
+            serde_json::json!({
+                "metadata": self.metadata,
+                "pages": self.pages.iter().map(|p| serde_json::json!({
+                    "size": SIZE_NAMES[p.size], "rotate": ROTS[p.rot],
+                    "body": p.body.iter().map(|c| format!("{c:?}")).collect::<Vec<_>>()})).collect::<Vec<_>>()
+            })
+        }
+        pub fn short(&self) -> String {
+            self.json().to_string()
+        }
+        pub fn content_calls(&self) -> usize {
+            self.pages.iter().map(|p| p.body.iter().filter(|c| c.produces_content()).count()).sum()
+        }
+        pub fn max_body(&self) -> usize {
+            self.pages.iter().map(|p| p.body.len()).max().unwrap_or(0)
+        }
+    }
+
+    /// One page with every body of length ≤ `max_len`; size / rotation / metadata are deviation
+    /// dimensions.
+    pub fn choose_single_page(c: &mut Ctx, max_len: usize) -> Program {
+        let len = c.choose("body_len", max_len + 1);
+        let mut body = Vec::new();
+        for _ in 0..len {
+            body.push(*c.pick_from("call", &ALPHABET));
+        }
+        let size = c.choose_dev("size", 3);
+        let rot = c.choose_dev("rotate", 4);
+        let metadata = c.choose_dev("metadata", 2) == 1;
+        Program { pages: vec![PageProg { size, rot, body }], metadata }
+    }
+
+    /// min_pages..=max_pages pages, each with a body of length ≤ `max_len`.
+    pub fn choose_multi_page(c: &mut Ctx, min_pages: usize, max_pages: usize, max_len: usize) -> Program {
+        let n = min_pages + c.choose("extra_pages", max_pages - min_pages + 1);
+        let mut pages = Vec::new();
+        for _ in 0..n {
+            let len = c.choose("body_len", max_len + 1);
+            let mut body = Vec::new();
+            for _ in 0..len {
+                body.push(*c.pick_from("call", &ALPHABET));
+            }
+            let size = c.choose_dev("size", 3);
+            let rot = c.choose_dev("rotate", 4);
+            pages.push(PageProg { size, rot, body });
+        }
+        let metadata = c.choose_dev("metadata", 2) == 1;
+        Program { pages, metadata }
+    }
+
+    // fixed arguments of the calls; coordinates carry three decimals (no rounding ties) so that
+    // the writer's 2-decimal rounding is visible in the read-back value
+    pub const HELV_TEXT: &str = "Hi (x) \\ \u{e9}";
+    pub const HELV_BYTES: &[u8] = b"Hi (x) \\ \xe9"; // WinAnsi
+    pub const COUR_TEXT: &str = "a)b(";
+    pub const COUR_POS: (f64, f64) = (72.126, 300.456);
+    pub const GRAY_PIXELS: [u8; 4] = [0, 85, 170, 255];
+    pub const RGB_PIXELS: [u8; 6] = [255, 0, 0, 0, 0, 255];
+    pub const TITLE: &str = "Title (C02)";
+
+    pub fn build(p: &Program) -> Result<Document, String> {
+        let mut doc = Document::new();
+        if p.metadata {
+            doc.set_title(TITLE);
+            doc.set_author("verif");
+        }
+        let mut outline = OutlineTree::new();
+        let mut n_out = 0;
+        for (pi, pg) in p.pages.iter().enumerate() {
+            let (w, h) = SIZES[pg.size];
+            let mut page = match pg.size {
+                0 => Page::a4(),
+                1 => Page::letter(),
+                _ => Page::new(w, h),
+            };
+            if pg.rot != 0 {
+                page.set_rotation(ROTS[pg.rot]);
+            }
+            for call in &pg.body {
+                match call {
+                    Call::HelvText => {
+                        page.text().set_font(Font::Helvetica, 12.0).write(HELV_TEXT).map_err(|e| format!("text: {e}"))?;
+                    }
+                    Call::CourierAt => {
+                        page.text()
+                            .set_font(Font::Courier, 10.5)
+                            .at(COUR_POS.0, COUR_POS.1)
+                            .write(COUR_TEXT)
+                            .map_err(|e| format!("text: {e}"))?;
+                    }
+                    Call::FillRect => {
+                        page.graphics().set_fill_color(Color::rgb(0.2, 0.4, 0.6)).rect(10.5, 20.254, 100.456, 50.0).fill();
+                    }
+                    Call::StrokeLine => {
+                        page.graphics()
+                            .set_stroke_color(Color::rgb(1.0, 0.0, 0.5))
+                            .set_line_width(2.5)
+                            .move_to(10.0, 10.5)
+                            .line_to(200.126, 300.874)
+                            .stroke();
+                    }
+                    Call::Bezier => {
+                        page.graphics().move_to(50.0, 50.0).curve_to(60.111, 80.222, 90.333, 80.444, 100.556, 50.667).stroke();
+                    }
+                    Call::SaveCmRestore => {
+                        page.graphics().save_state().transform(0.5, 0.0, 0.0, 0.5, 10.123, 20.987).restore_state();
+                    }
+                    Call::GrayImage => {
+                        let img = Image::from_gray_data(GRAY_PIXELS.to_vec(), 2, 2).map_err(|e| format!("image: {e}"))?;
+                        page.add_image("ImG", img);
+                        page.draw_image("ImG", 100.0, 400.126, 64.0, 32.5).map_err(|e| format!("draw_image: {e}"))?;
+                    }
+                    Call::RgbImage => {
+                        let img = Image::from_raw_data(RGB_PIXELS.to_vec(), 2, 1, ColorSpace::DeviceRGB, 8);
+                        page.add_image("ImC", img);
+                        page.draw_image("ImC", 30.0, 50.0, 20.0, 10.0).map_err(|e| format!("draw_image: {e}"))?;
+                    }
+                    Call::TextAnnot => {
+                        page.add_annotation(TextAnnotation::new(Point::new(100.5, 200.25)).with_contents("Note (1)").to_annotation());
+                    }
+                    Call::OutlineEntry => {
+                        n_out += 1;
+                        outline.add_item(
+                            OutlineItem::new(format!("Sec {n_out}")).with_destination(Destination::fit(PageDestination::PageNumber(pi as u32))),
+                        );
+                    }
+                }
+            }
+            doc.add_page(page);
+        }
+        if n_out > 0 {
+            doc.set_outline(outline);
+        }
+        Ok(doc)
+    }
+
+    /// Build the document afresh and write it under `cfg`. Err = the writer refused or panicked.
+    pub fn write(p: &Program, cfg: Cfg) -> Result<Vec<u8>, String> {
+        match vx::guard(|| {
+            let mut doc = build(p)?;
+            doc.to_bytes_with_config(cfg.writer()).map_err(|e| format!("writer error: {e}"))
+        }) {
+            Ok(r) => r,
+            Err(p) => Err(format!("writer panic: {p}")),
+        }
+    }
+
+    // ------------------------------------------------------------------ observations and model
+
+    #[derive(Clone, Debug, PartialEq)]
+    pub enum Arg {
+        Num(f64),
+        Name(String),
+        Str(Vec<u8>),
+    }
+    #[derive(Clone, Debug, PartialEq)]
+    pub struct MOp {
+        pub op: String,
+        pub args: Vec<Arg>,
+    }
+    impl MOp {
+        fn n(op: &str, nums: &[f64]) -> MOp {
+            MOp { op: op.to_string(), args: nums.iter().map(|v| Arg::Num(*v)).collect() }
+        }
+        pub fn show(&self) -> String {
+            let mut s = String::new();
+            for a in &self.args {
+                match a {
+                    Arg::Num(v) => s.push_str(&format!("{v} ")),
+                    Arg::Name(n) => s.push_str(&format!("/{n} ")),
+                    Arg::Str(b) => s.push_str(&format!("({}) ", vx::show_bytes(b, 40))),
+                }
+            }
+            s.push_str(&self.op);
+            s
+        }
+    }
+    pub fn show_ops(ops: &[MOp]) -> String {
+        ops.iter().map(|o| o.show()).collect::<Vec<_>>().join(" | ")
+    }
+
+    #[derive(Clone, Debug, PartialEq)]
+    pub struct ImageObs {
+        pub width: i64,
+        pub height: i64,
+        pub color_space: String,
+        pub bpc: i64,
+        pub pixels: Vec<u8>,
+    }
+    #[derive(Clone, Debug, PartialEq)]
+    pub struct PageObs {
+        pub media: [f64; 4],
+        pub rot: i64,
+        pub ops: Vec<MOp>,
+        pub images: BTreeMap<String, ImageObs>,
+        /// decoded content bytes (not part of the model)
+        pub content: Vec<u8>,
+    }
+    #[derive(Clone, Debug, PartialEq)]
+    pub struct DocObs {
+        pub pages: Vec<PageObs>,
+    }
+
+    fn r2(v: f64) -> f64 {
+        (v * 100.0).round() / 100.0
+    }
+    fn r3(v: f64) -> f64 {
+        (v * 1000.0).round() / 1000.0
+    }
+
+    #[derive(Clone, Copy, PartialEq)]
+    enum Col {
+        Gray(f64),
+        Rgb(f64, f64, f64),
+    }
+    fn fill_op(c: Col) -> MOp {
+        match c {
+            Col::Gray(g) => MOp::n("g", &[r3(g)]),
+            Col::Rgb(r, g, b) => MOp::n("rg", &[r3(r), r3(g), r3(b)]),
+        }
+    }
+    fn stroke_op(c: Col) -> MOp {
+        match c {
+            Col::Gray(g) => MOp::n("G", &[r3(g)]),
+            Col::Rgb(r, g, b) => MOp::n("RG", &[r3(r), r3(g), r3(b)]),
+        }
+    }
+
+    /// Reference observation of the program. Operators are in call order; colours follow the
+    /// documented graphics-state semantics of the API (fill colour is emitted when a path is
+    /// filled / text is shown, stroke colour when a path is stroked; the text context takes
+    /// over the graphics fill colour the first time it is used).
+    ///
+    /// `draw_image_unflushed` = emulate the page buffering in which `Page::draw_image` appends to
+    /// the graphics buffer without first flushing pending text operators (used only to
+    /// recognise that exact defect).
+    pub fn model(p: &Program, draw_image_unflushed: bool) -> DocObs {
+        let mut pages = Vec::new();
+        for pg in &p.pages {
+            let (w, h) = SIZES[pg.size];
+            let mut flushed: Vec<MOp> = Vec::new();
+            let mut gfx: Vec<MOp> = Vec::new();
+            let mut txt: Vec<MOp> = Vec::new();
+            let mut images = BTreeMap::new();
+            let mut gfx_fill = Col::Gray(0.0);
+            let mut gfx_stroke = Col::Gray(0.0);
+            let mut text_fill: Option<Col> = None;
+            let mut text_pos = (0.0, 0.0);
+            for call in &pg.body {
+                match call {
+                    Call::HelvText | Call::CourierAt => {
+                        flushed.append(&mut gfx);
+                        if text_fill.is_none() {
+                            text_fill = Some(gfx_fill);
+                        }
+                        let (font, size, bytes): (&str, f64, &[u8]) = if *call == Call::HelvText {
+                            ("Helvetica", 12.0, HELV_BYTES)
+                        } else {
+                            text_pos = COUR_POS;
+                            ("Courier", 10.5, COUR_TEXT.as_bytes())
+                        };
+                        txt.push(MOp::n("BT", &[]));
+                        txt.push(MOp { op: "Tf".into(), args: vec![Arg::Name(font.into()), Arg::Num(size)] });
+                        txt.push(fill_op(text_fill.unwrap()));
+                        txt.push(MOp::n("Td", &[r2(text_pos.0), r2(text_pos.1)]));
+                        txt.push(MOp { op: "Tj".into(), args: vec![Arg::Str(bytes.to_vec())] });
+                        txt.push(MOp::n("ET", &[]));
+                    }
+                    Call::FillRect => {
+                        flushed.append(&mut txt);
+                        gfx_fill = Col::Rgb(0.2, 0.4, 0.6);
+                        gfx.push(MOp::n("re", &[r2(10.5), r2(20.254), r2(100.456), r2(50.0)]));
+                        gfx.push(fill_op(gfx_fill));
+                        gfx.push(MOp::n("f", &[]));
+                    }
+                    Call::StrokeLine => {
+                        flushed.append(&mut txt);
+                        gfx_stroke = Col::Rgb(1.0, 0.0, 0.5);
+                        gfx.push(MOp::n("w", &[r2(2.5)]));
+                        gfx.push(MOp::n("m", &[r2(10.0), r2(10.5)]));
+                        gfx.push(MOp::n("l", &[r2(200.126), r2(300.874)]));
+                        gfx.push(stroke_op(gfx_stroke));
+                        gfx.push(MOp::n("S", &[]));
+                    }
+                    Call::Bezier => {
+                        flushed.append(&mut txt);
+                        gfx.push(MOp::n("m", &[50.0, 50.0]));
+                        gfx.push(MOp::n("c", &[r2(60.111), r2(80.222), r2(90.333), r2(80.444), r2(100.556), r2(50.667)]));
+                        gfx.push(stroke_op(gfx_stroke));
+                        gfx.push(MOp::n("S", &[]));
+                    }
+                    Call::SaveCmRestore => {
+                        flushed.append(&mut txt);
+                        gfx.push(MOp::n("q", &[]));
+                        gfx.push(MOp::n("cm", &[0.5, 0.0, 0.0, 0.5, r2(10.123), r2(20.987)]));
+                        gfx.push(MOp::n("Q", &[]));
+                    }
+                    Call::GrayImage | Call::RgbImage => {
+                        if !draw_image_unflushed {
+                            flushed.append(&mut txt);
+                        }
+                        let (name, m, obs) = if *call == Call::GrayImage {
+                            (
+                                "ImG",
+                                [64.0, 0.0, 0.0, 32.5, 100.0, r2(400.126)],
+                                ImageObs { width: 2, height: 2, color_space: "DeviceGray".into(), bpc: 8, pixels: GRAY_PIXELS.to_vec() },
+                            )
+                        } else {
+                            (
+                                "ImC",
+                                [20.0, 0.0, 0.0, 10.0, 30.0, 50.0],
+                                ImageObs { width: 2, height: 1, color_space: "DeviceRGB".into(), bpc: 8, pixels: RGB_PIXELS.to_vec() },
+                            )
+                        };
+                        images.insert(name.to_string(), obs);
+                        gfx.push(MOp::n("q", &[]));
+                        gfx.push(MOp::n("cm", &m));
+                        gfx.push(MOp { op: "Do".into(), args: vec![Arg::Name(name.into())] });
+                        gfx.push(MOp::n("Q", &[]));
+                    }
+                    Call::TextAnnot | Call::OutlineEntry => {}
+                }
+            }
+            // at most one of the two tails is non-empty unless draw_image_unflushed
+            flushed.append(&mut gfx);
+            flushed.append(&mut txt);
+            pages.push(PageObs { media: [0.0, 0.0, w, h], rot: ROTS[pg.rot] as i64, ops: flushed, images, content: Vec::new() });
+        }
+        DocObs { pages }
+    }
+
+    fn f(v: f32) -> Arg {
+        Arg::Num(v as f64)
+    }
+    fn lib_op(op: &ContentOperation) -> MOp {
+        use ContentOperation as C;
+        let (name, args): (&str, Vec<Arg>) = match op {
+            C::BeginText => ("BT", vec![]),
+            C::EndText => ("ET", vec![]),
+            C::SetFont(n, s) => ("Tf", vec![Arg::Name(n.clone()), f(*s)]),
+            C::MoveText(x, y) => ("Td", vec![f(*x), f(*y)]),
+            C::ShowText(b) => ("Tj", vec![Arg::Str(b.clone())]),
+            C::SaveGraphicsState => ("q", vec![]),
+            C::RestoreGraphicsState => ("Q", vec![]),
+            C::SetTransformMatrix(a, b, c, d, e, ff) => ("cm", vec![f(*a), f(*b), f(*c), f(*d), f(*e), f(*ff)]),
+            C::SetLineWidth(w) => ("w", vec![f(*w)]),
+            C::MoveTo(x, y) => ("m", vec![f(*x), f(*y)]),
+            C::LineTo(x, y) => ("l", vec![f(*x), f(*y)]),
+            C::CurveTo(a, b, c, d, e, ff) => ("c", vec![f(*a), f(*b), f(*c), f(*d), f(*e), f(*ff)]),
+            C::Rectangle(x, y, w, h) => ("re", vec![f(*x), f(*y), f(*w), f(*h)]),
+            C::Stroke => ("S", vec![]),
+            C::Fill => ("f", vec![]),
+            C::SetStrokingGray(g) => ("G", vec![f(*g)]),
+            C::SetNonStrokingGray(g) => ("g", vec![f(*g)]),
+            C::SetStrokingRGB(r, g, b) => ("RG", vec![f(*r), f(*g), f(*b)]),
+            C::SetNonStrokingRGB(r, g, b) => ("rg", vec![f(*r), f(*g), f(*b)]),
+            C::PaintXObject(n) => ("Do", vec![Arg::Name(n.clone())]),
+            other => return MOp { op: format!("?{other:?}"), args: vec![] },
+        };
+        MOp { op: name.to_string(), args }
+    }
+
+    fn ref_op(op: &refpdf::content::Op) -> MOp {
+        use refpdf::syntax::Obj;
+        let args = op
+            .operands
+            .iter()
+            .map(|o| match o {
+                Obj::Int(i) => Arg::Num(*i as f64),
+                Obj::Real(r) => Arg::Num(*r),
+                Obj::Name(n) => Arg::Name(String::from_utf8_lossy(n).into_owned()),
+                Obj::Str(s) => Arg::Str(s.clone()),
+                other => Arg::Name(format!("?{other:?}")),
+            })
+            .collect();
+        MOp { op: op.name(), args }
+    }
+
+    fn err<E: std::fmt::Display>(what: &str) -> impl Fn(E) -> String + '_ {
+        move |e| format!("{what}: {e}")
+    }
+
+    /// What the library's own reader (default options) sees.
+    pub fn observe_lib(bytes: &[u8]) -> Result<DocObs, String> {
+        match vx::guard(|| observe_lib_inner(bytes)) {
+            Ok(r) => r,
+            Err(p) => Err(format!("reader panic: {p}")),
+        }
+    }
+    fn observe_lib_inner(bytes: &[u8]) -> Result<DocObs, String> {
+        let reader = PdfReader::new(Cursor::new(bytes)).map_err(err("open"))?;
+        let doc = PdfDocument::new(reader);
+        let n = doc.page_count().map_err(err("page_count"))?;
+        let mut pages = Vec::new();
+        for i in 0..n {
+            let page = doc.get_page(i).map_err(err("get_page"))?;
+            let streams = doc.get_page_content_streams(&page).map_err(err("content streams"))?;
+            let mut content = Vec::new();
+            for (k, s) in streams.iter().enumerate() {
+                if k > 0 {
+                    content.push(b'\n');
+                }
+                content.extend_from_slice(s);
+            }
+            let ops = ContentParser::parse_content(&content).map_err(err("ContentParser"))?;
+            let mut images = BTreeMap::new();
+            if let Some(res) = page.get_resources() {
+                if let Some(x) = res.get("XObject") {
+                    let xd = doc.resolve(x).map_err(err("resolve XObject"))?;
+                    let xd = xd.as_dict().ok_or("XObject resources are not a dictionary")?;
+                    for (name, v) in xd.0.iter() {
+                        let o = doc.resolve(v).map_err(err("resolve image"))?;
+                        let PdfObject::Stream(s) = &o else { return Err(format!("XObject /{} is not a stream", name.0)) };
+                        if s.dict.get("Subtype").and_then(|t| t.as_name()).map(|n| n.0.as_str()) != Some("Image") {
+                            continue;
+                        }
+                        let int = |k: &str| s.dict.get(k).and_then(|v| v.as_integer()).unwrap_or(-1);
+                        let cs = s.dict.get("ColorSpace").and_then(|v| v.as_name()).map(|n| n.0.clone()).unwrap_or_default();
+                        let pixels = doc.decode_stream(s).map_err(err("decode image"))?;
+                        images.insert(name.0.clone(), ImageObs { width: int("Width"), height: int("Height"), color_space: cs, bpc: int("BitsPerComponent"), pixels });
+                    }
+                }
+            }
+            pages.push(PageObs { media: page.media_box, rot: page.rotation as i64, ops: ops.iter().map(lib_op).collect(), images, content });
+        }
+        Ok(DocObs { pages })
+    }
+
+    /// What the independent reference reader sees.
+    pub fn observe_ref(bytes: &[u8]) -> Result<DocObs, String> {
+        let file = refpdf::file::PdfFile::parse(bytes)?;
+        observe_ref_file(&file)
+    }
+    pub fn observe_ref_file(file: &refpdf::file::PdfFile) -> Result<DocObs, String> {
+        let mut pages = Vec::new();
+        for pg in file.pages()? {
+            let media = pg.media_box().ok_or("page without a usable /MediaBox")?;
+            let content = file.page_content(&pg)?;
+            let ops = refpdf::content::parse_content(&content)?;
+            let mut images = BTreeMap::new();
+            if let Some(res) = pg.resources() {
+                let xd = file.dget(res, "XObject");
+                if let Some(d) = xd.as_dict() {
+                    for (name, v) in d.iter() {
+                        let o = file.resolve(v);
+                        let Some(s) = o.as_stream() else { return Err(format!("XObject /{} is not a stream", String::from_utf8_lossy(name))) };
+                        if file.resolve_opt(s.dict.get("Subtype")).as_name() != Some(b"Image") {
+                            continue;
+                        }
+                        let int = |k: &str| file.resolve_opt(s.dict.get(k)).as_int().unwrap_or(-1);
+                        let cs = file.resolve_opt(s.dict.get("ColorSpace")).as_name().map(|n| String::from_utf8_lossy(n).into_owned()).unwrap_or_default();
+                        let pixels = file.stream_data(s)?;
+                        images.insert(
+                            String::from_utf8_lossy(name).into_owned(),
+                            ImageObs { width: int("Width"), height: int("Height"), color_space: cs, bpc: int("BitsPerComponent"), pixels },
+                        );
+                    }
+                }
+            }
+            pages.push(PageObs { media, rot: pg.rotate(), ops: ops.iter().map(ref_op).collect(), images, content });
+        }
+        let issues = file.issues.borrow();
+        if let Some(i) = issues.iter().find(|i| i.contains("object") || i.contains("xref")) {
+            // damage met while reading (Null substituted for an unreadable object, …)
+            return Err(format!("reference reader met damage: {i}"));
+        }
+        Ok(DocObs { pages })
+    }
+
+    fn num_eq(want: f64, got: f64) -> bool {
+        (want - got).abs() <= 1e-6 * want.abs().max(1.0)
+    }
+    pub fn ops_match(want: &[MOp], got: &[MOp]) -> bool {
+        want.len() == got.len()
+            && want.iter().zip(got).all(|(w, g)| {
+                w.op == g.op
+                    && w.args.len() == g.args.len()
+                    && w.args.iter().zip(&g.args).all(|(a, b)| match (a, b) {
+                        (Arg::Num(x), Arg::Num(y)) => num_eq(*x, *y),
+                        (a, b) => a == b,
+                    })
+            })
+    }
+
+    /// First difference between a reference observation and an actual one: (aspect, detail).
+    /// Aspects: page-count, mediabox, rotate, operators, images.
+    pub fn diff(want: &DocObs, got: &DocObs) -> Option<(&'static str, String)> {
+        if want.pages.len() != got.pages.len() {
+            return Some(("page-count", format!("want {} pages, got {}", want.pages.len(), got.pages.len())));
+        }
+        for (i, (w, g)) in want.pages.iter().zip(&got.pages).enumerate() {
+            if !(0..4).all(|k| num_eq(w.media[k], g.media[k])) {
+                return Some(("mediabox", format!("page {i}: want {:?}, got {:?}", w.media, g.media)));
+            }
+            if w.rot != g.rot {
+                return Some(("rotate", format!("page {i}: want {}, got {}", w.rot, g.rot)));
+            }
+            if !ops_match(&w.ops, &g.ops) {
+                return Some(("operators", format!("page {i}: want [{}] got [{}]", show_ops(&w.ops), show_ops(&g.ops))));
+            }
+            if w.images != g.images {
+                return Some(("images", format!("page {i}: want {:?}, got {:?}", w.images, g.images)));
+            }
+        }
+        None
+    }
+
+    // ------------------------------------------------------------------ known-defect signatures
+
+    /// The cross-reference stream object the file's `startxref` points at, parsed without
+    /// decoding: (offset of the object, dictionary, raw data).
+    pub fn raw_xref_stream(bytes: &[u8]) -> Option<(usize, refpdf::syntax::Dict, Vec<u8>)> {
+        let sx = bytes.windows(9).rposition(|w| w == b"startxref")?;
+        let mut p = refpdf::syntax::Parser::new(bytes, sx + 9);
+        let off = p.parse_object().ok()?.as_int()? as usize;
+        if off >= bytes.len() {
+            return None;
+        }
+        let mut p = refpdf::syntax::Parser::new(bytes, off);
+        let (_, _, o) = p.indirect_object(&|l| l.as_int()).ok()?;
+        let s = o.as_stream()?;
+        Some((off, s.dict.clone(), s.data.clone()))
+    }
+
+    /// KF signature "uncompressed cross-reference stream declares /FlateDecode": the xref stream
+    /// dictionary names /Filter /FlateDecode while the data is exactly Size × ΣW raw bytes.
+    /// Returns the file with the wrong /Filter entry blanked out (same length, no offset moves),
+    /// so that every other oracle can still be applied to the rest of the file.
+    pub fn repair_undeclared_raw_xref_stream(bytes: &[u8]) -> Option<Vec<u8>> {
+        let (off, dict, data) = raw_xref_stream(bytes)?;
+        if dict.get("Type").and_then(|t| t.as_name()) != Some(b"XRef") || dict.get("Filter").and_then(|t| t.as_name()) != Some(b"FlateDecode") {
+            return None;
+        }
+        let w: usize = dict.get("W")?.as_array()?.iter().filter_map(|x| x.as_int()).sum::<i64>() as usize;
+        let size = dict.get("Size")?.as_int()? as usize;
+        if w == 0 || data.len() != w * size {
+            return None;
+        }
+        let pat = b"/Filter /FlateDecode";
+        let rel = bytes[off..].windows(pat.len()).position(|x| x == pat)?;
+        let stream_kw = bytes[off..].windows(6).position(|x| x == b"stream")?;
+        if rel > stream_kw {
+            return None;
+        }
+        let mut out = bytes.to_vec();
+        for b in &mut out[off + rel..off + rel + pat.len()] {
+            *b = b' ';
+        }
+        Some(out)
+    }
+
+    /// KF signature "object streams with a classic cross-reference table": the newest section is a
+    /// table, the file contains /Type /ObjStm streams, and the objects packed into them are
+    /// exactly the ones the table lists as free (a table cannot express type-2 entries).
+    /// Returns the set of member object numbers when the signature holds.
+    pub fn objstm_with_classic_xref_signature(file: &refpdf::file::PdfFile) -> Option<Vec<u32>> {
+        use refpdf::file::{XEntry, XKind};
+        if file.sections.len() != 1 || file.sections[0].kind != XKind::Table {
+            return None;
+        }
+        let mut members = Vec::new();
+        for (&num, e) in &file.xref {
+            if let XEntry::InUse { offset, .. } = e {
+                // only look at objects that announce themselves as object streams (cheap check first)
+                let head = &file.bytes[*offset..(*offset + 200).min(file.bytes.len())];
+                if !head.windows(7).any(|w| w == b"/ObjStm") {
+                    continue;
+                }
+                let m = file.objstm_members(num).ok()?;
+                members.extend(m.iter().map(|(n, _)| *n));
+            }
+        }
+        if members.is_empty() {
+            return None;
+        }
+        if members.iter().all(|n| matches!(file.xref.get(n), Some(XEntry::Free { .. }))) {
+            members.sort();
+            Some(members)
+        } else {
+            None
+        }
+    }
+}
+
+use prog::{Cfg, DocObs, Program};
+
+/// Keep error texts free of case-specific numbers so that they can be used as key suffixes.
+pub(crate) fn slug(msg: &str) -> String {
+    let mut out = String::new();
+    let mut last_hash = false;
+    for ch in msg.chars().take(160) {
+        if ch.is_ascii_digit() {
+            if !last_hash {
+                out.push('N');
+            }
+            last_hash = true;
+        } else {
+            last_hash = false;
+            out.push(if ch.is_ascii_alphanumeric() || "/-_.:'".contains(ch) { ch } else { '-' });
+        }
+    }
+    let mut s = String::new();
+    for ch in out.chars() {
+        if ch == '-' && s.ends_with('-') {
+            continue;
+        }
+        s.push(ch);
+    }
+    s.trim_matches('-').chars().take(90).collect()
+}
+
+fn run_program(c: &mut Ctx, p: &Program, cfgs: &[Cfg]) {
+    c.input(vx::h64(p));
+    if p.content_calls() > 0 {
+        c.nontrivial();
+    }
+    let want = prog::model(p, false);
+    let want_unflushed = prog::model(p, true);
+    let mut first_lib: Option<(Cfg, DocObs)> = None;
+    let mut first_ref: Option<(Cfg, DocObs)> = None;
+    let mut oh = 0u64;
+    for cfg in cfgs {
+        let tag = format!("{} program={}", cfg.label(), p.short());
+        let bytes = match prog::write(p, *cfg) {
+            Ok(b) => b,
+            Err(e) => {
+                c.fail(format!("C02/write-failed:{}", slug(&e)), format!("{tag}: {e}"));
+                oh = vx::hmix(oh, 1);
+                continue;
+            }
+        };
+        // ---- known defect: raw xref stream that declares /FlateDecode — recognise by its exact
+        // signature, then go on with the repaired file so that nothing else hides behind it
+        let mut bytes = bytes;
+        if cfg.xref_stream && !cfg.compress {
+            if let Some(fixed) = prog::repair_undeclared_raw_xref_stream(&bytes) {
+                let lib_err = prog::observe_lib(&bytes).err().unwrap_or_default();
+                let ref_err = prog::observe_ref(&bytes).err().unwrap_or_default();
+                if !lib_err.is_empty() || !ref_err.is_empty() {
+                    c.fail(
+                        "C02/uncompressed-xref-stream-declares-flatedecode",
+                        format!("{tag}: library reader: {lib_err:?}; reference reader: {ref_err:?}; the xref stream dictionary has /Filter /FlateDecode but its data is the raw table"),
+                    );
+                    oh = vx::hmix(oh, 2);
+                }
+                bytes = fixed;
+            }
+        }
+        // ---- reference reader
+        let robs = match refpdf::file::PdfFile::parse(&bytes) {
+            Ok(file) => {
+                if cfg.obj_streams && !cfg.xref_stream {
+                    if let Some(members) = prog::objstm_with_classic_xref_signature(&file) {
+                        // (the library reader needs seconds for the 20 MB table; it is asked once, in the probe of the first program)
+                        let lib = if p.max_body() == 0 && p.pages.len() == 1 { format!("{:?}", prog::observe_lib(&bytes).err()) } else { "not asked".to_string() };
+                        c.fail(
+                            "C02/objstm-with-classic-xref-unreadable",
+                            format!("{tag}: objects {members:?} live in an object stream but the classic xref table lists them as free; reference reader: {:?}; library reader: {lib}", prog::observe_ref_file(&file).err()),
+                        );
+                        oh = vx::hmix(oh, 3);
+                        continue;
+                    }
+                }
+                prog::observe_ref_file(&file)
+            }
+            Err(e) => Err(e),
+        };
+        match &robs {
+            Ok(o) => {
+                if let Some((aspect, d)) = prog::diff(&want, o) {
+                    let key = if aspect == "operators" && prog::diff(&want_unflushed, o).is_none() {
+                        "C02/draw-image-emitted-before-pending-text".to_string()
+                    } else {
+                        format!("C02/reference-reader-sees-different-{aspect}")
+                    };
+                    c.fail(key, format!("{tag}: {d}"));
+                }
+                match &first_ref {
+                    None => first_ref = Some((*cfg, o.clone())),
+                    Some((c0, o0)) => {
+                        if o0 != o {
+                            c.fail(
+                                "C02/configuration-dependent-content-in-reference-reader",
+                                format!("{tag}: differs from [{}]: {:?}", c0.label(), prog::diff(o0, o)),
+                            );
+                        }
+                    }
+                }
+            }
+            Err(e) => c.fail(format!("C02/unreadable-by-reference-reader:{}", slug(e)), format!("{tag}: {e}")),
+        }
+        // ---- library reader
+        let lobs = prog::observe_lib(&bytes);
+        match &lobs {
+            Ok(o) => {
+                if let Some((aspect, d)) = prog::diff(&want, o) {
+                    let key = if aspect == "operators" && prog::diff(&want_unflushed, o).is_none() {
+                        "C02/draw-image-emitted-before-pending-text".to_string()
+                    } else {
+                        format!("C02/library-reader-sees-different-{aspect}")
+                    };
+                    c.fail(key, format!("{tag}: {d}"));
+                }
+                match &first_lib {
+                    None => first_lib = Some((*cfg, o.clone())),
+                    Some((c0, o0)) => {
+                        if o0 != o {
+                            c.fail(
+                                "C02/configuration-dependent-content-in-library-reader",
+                                format!("{tag}: differs from [{}]: {:?}", c0.label(), prog::diff(o0, o)),
+                            );
+                        }
+                    }
+                }
+                if let Ok(r) = &robs {
+                    for (i, (lp, rp)) in o.pages.iter().zip(&r.pages).enumerate() {
+                        if lp.content != rp.content {
+                            c.fail(
+                                "C02/decoded-content-bytes-differ-between-readers",
+                                format!("{tag}: page {i}: library {:?} reference {:?}", vx::show_bytes(&lp.content, 200), vx::show_bytes(&rp.content, 200)),
+                            );
+                        }
+                    }
+                }
+            }
+            Err(e) => c.fail(format!("C02/unreadable-by-library-reader:{}", slug(e)), format!("{tag}: {e}")),
+        }
+        oh = vx::hmix(oh, vx::h64(&(lobs.is_ok(), robs.is_ok())));
+    }
+    if let Some((_, o)) = &first_lib {
+        oh = vx::hmix(oh, vx::h64(&format!("{:?}", o.pages.iter().map(|p| (&p.ops, &p.images, p.rot)).collect::<Vec<_>>())));
+    }
+    c.outcome(oh);
+    c.sample(json!({"program": p.json(), "configurations": cfgs.len()}));
+}
+
+/// Configurations with object streams produce a 1 000 001-entry cross-reference section (the
+/// writer numbers its object stream 1000000), which costs the library reader 0.3–3 s per file,
+/// so they are run for a sub-family of the programs only (stated in the evidence):
+///   quick:    no deviation in size/rotation/metadata, and either one page with a body of ≤ 1
+///             call or two pages with the same body of ≤ 1 call;
+///   thorough: no deviation, and one page with a body of ≤ 2 calls, or two pages with bodies of
+///             ≤ 1 call, or three pages with the same body of ≤ 1 call.
+/// The 8 configurations without object streams are run for every program.
+pub(crate) fn configs_for(p: &Program, thorough: bool) -> Vec<Cfg> {
+    let all = Cfg::all();
+    let plain = !p.metadata && p.pages.iter().all(|pg| pg.size == 0 && pg.rot == 0);
+    let same = p.pages.windows(2).all(|w| w[0].body == w[1].body);
+    let eligible = plain
+        && match (p.pages.len(), p.max_body()) {
+            (1, l) => l <= if thorough { 2 } else { 1 },
+            (2, l) => l <= 1 && (thorough || same),
+            (3, l) => l <= 1 && thorough && same,
+            _ => false,
+        };
+    if eligible {
+        all
+    } else {
+        all.into_iter().filter(|c| !c.obj_streams).collect()
+    }
+}
+
+fn probe() {
+    use prog::*;
+    use std::time::Instant;
+    if std::env::var("C02_PROBE").as_deref() == Ok("loop") {
+        let p = Program { pages: vec![PageProg { size: 0, rot: 0, body: vec![Call::HelvText, Call::GrayImage, Call::FillRect] }], metadata: true };
+        let cfg = Cfg::from_index(0);
+        let (mut tw, mut tr, mut tl, mut tm) = (0u128, 0u128, 0u128, 0u128);
+        for _ in 0..300 {
+            let t = Instant::now();
+            let b = prog::write(&p, cfg).unwrap();
+            tw += t.elapsed().as_micros();
+            let t = Instant::now();
+            let _ = prog::observe_ref(&b);
+            tr += t.elapsed().as_micros();
+            let t = Instant::now();
+            let _ = prog::observe_lib(&b);
+            tl += t.elapsed().as_micros();
+            let t = Instant::now();
+            let _ = prog::model(&p, false);
+            let _ = p.short();
+            tm += t.elapsed().as_micros();
+        }
+        eprintln!("per round trip (us): write={} ref={} lib={} model+json={}", tw / 300, tr / 300, tl / 300, tm / 300);
+        return;
+    }
+    let p = Program { pages: vec![PageProg { size: 0, rot: 0, body: vec![Call::HelvText, Call::GrayImage, Call::FillRect] }], metadata: true };
+    for cfg in Cfg::all() {
+        let t = Instant::now();
+        let b = prog::write(&p, cfg);
+        let tw = t.elapsed();
+        let Ok(b) = b else { eprintln!("{} write failed {:?}", cfg.label(), b.err()); continue };
+        let t = Instant::now();
+        let r = prog::observe_ref(&b);
+        let tr = t.elapsed();
+        let t = Instant::now();
+        let l = prog::observe_lib(&b);
+        let tl = t.elapsed();
+        let t = Instant::now();
+        let v = refpdf::file::validate(&b);
+        let tv = t.elapsed();
+        eprintln!(
+            "{:<45} len={:>9} write={:?} ref={:?} lib={:?} validate={:?}\n    ref: {}\n    lib: {}\n    validate: {:?}",
+            cfg.label(), b.len(), tw, tr, tl, tv,
+            match &r { Ok(o) => format!("ok pages={} diff={:?}", o.pages.len(), prog::diff(&prog::model(&p, false), o)), Err(e) => format!("ERR {e}") },
+            match &l { Ok(o) => format!("ok pages={} diff={:?}", o.pages.len(), prog::diff(&prog::model(&p, false), o)), Err(e) => format!("ERR {e}") },
+            v.iter().take(6).collect::<Vec<_>>()
+        );
+        if std::env::var("C02_PROBE").as_deref() == Ok("dump") {
+            let _ = std::fs::write(format!("/verif/.scratch/C02-w2/probe-{}.pdf", cfg.label().replace(' ', "_")), &b);
+        }
+    }
+}
+
+/// The writer allocates and frees a deflate state (hundreds of KB) per compressed stream; with
+/// glibc's default trim threshold every such cycle returns the pages to the kernel and faults
+/// them in again. Keeping freed memory in the arenas makes a write ~10× cheaper.
+pub(crate) fn tune_allocator() {
+    unsafe {
+        libc::mallopt(libc::M_TRIM_THRESHOLD, 1 << 30);
+        libc::mallopt(libc::M_MMAP_THRESHOLD, 32 << 20);
+        libc::mallopt(libc::M_TOP_PAD, 64 << 20);
+    }
+}
+
+pub fn run(rep: &mut Report) {
+    tune_allocator();
+    if std::env::var("C02_PROBE").is_ok() {
+        probe();
+        std::process::exit(0);
+    }
+    let thorough = rep.tier.is_thorough();
+    rep.rule(
+        "one execution = one authoring program written under the 8 writer configurations without object streams \
+         and, for the sub-family stated in `objstm_family`, also under the 8 with object streams, each file read back \
+         by the library reader and by the reference reader; non-trivial = the program draws at least one content-producing call; \
+         distinct = distinct program",
+    );
+    rep.assume("reference operator list: call order; coordinates rounded to 2 decimals, colours to 3, font size unrounded (graphics/ops.rs serialize_ops); numeric operands compared with relative tolerance 1e-6 (the library reader holds f32)");
+    rep.assume("colour operators follow the API's documented graphics-state model: fill colour emitted at fill/show-text, stroke colour at stroke, the text context inherits the graphics fill colour at its first use");
+    rep.assume("refpdf (reference reader, content parser) is correct; it is validated against qpdf/pypdf fixtures and spec examples in its unit tests");
+    rep.assume("annotations, outline entries and metadata are part of the programs (they add objects) but their own read-back is not compared: the property lists page count, boxes, rotation, operators and images");
+    let dev = 1;
+    let single_len = if thorough { 4 } else { 3 };
+    rep.note("objstm_family", json!("object-stream configurations are run for programs without size/rotation/metadata deviation that have one page and a body ≤ 1 (thorough ≤ 2), two pages with equal bodies ≤ 1 (thorough: any bodies ≤ 1), thorough also three pages with equal bodies ≤ 1; reason: the writer numbers its object stream 1000000, every such file carries a 1 000 001-entry cross-reference section (20 MB as a table) and costs the library reader 0.3–3 s"));
+    rep.note("writer_configurations", json!(Cfg::all().iter().map(|c| c.label()).collect::<Vec<_>>()));
+
+    // development aid: C02_SECTIONS=single-page,two runs only the sections with these prefixes
+    let on = |s: &str| std::env::var("C02_SECTIONS").map(|v| v.split(',').any(|x| s.starts_with(x))).unwrap_or(true);
+    if on("single-page") {
+        rep.explore("single-page", Explore::dev(dev), |c: &mut Ctx| {
+            let p = prog::choose_single_page(c, single_len);
+            let cfgs = configs_for(&p, thorough);
+            run_program(c, &p, &cfgs);
+        });
+    }
+    if !on("multi") {
+        return;
+    }
+    if thorough {
+        rep.explore("single-page-dev2", Explore::dev(2), |c: &mut Ctx| {
+            let p = prog::choose_single_page(c, 2);
+            let cfgs = configs_for(&p, thorough);
+            run_program(c, &p, &cfgs);
+        });
+    }
+    rep.explore("two-pages", Explore::dev(dev), |c: &mut Ctx| {
+        let p = prog::choose_multi_page(c, 2, 2, 1);
+        let cfgs = configs_for(&p, thorough);
+        run_program(c, &p, &cfgs);
+    });
+    rep.explore("three-pages", Explore::dev(if thorough { 1 } else { 0 }), |c: &mut Ctx| {
+        let p = prog::choose_multi_page(c, 3, 3, 1);
+        let cfgs = configs_for(&p, thorough);
+        run_program(c, &p, &cfgs);
+    });
+    if thorough {
+        rep.explore("two-pages-bodies-2", Explore::dev(1), |c: &mut Ctx| {
+            let p = prog::choose_multi_page(c, 2, 2, 2);
+            let cfgs = configs_for(&p, true);
+            run_program(c, &p, &cfgs);
+        });
+    }
+}
